@@ -495,7 +495,9 @@ class Stream(APIRegisterMixin):
                 try:
                     result = await asyncio.gather(*self._emit(x, metadata=metadata))
                 finally:
-                    del thread_state.asynchronous
+                    # another overlapping blocking emit may have finished
+                    # first and removed the flag already
+                    thread_state.__dict__.pop('asynchronous', None)
                 return result
 
             sync(self.loop, _)
